@@ -269,3 +269,24 @@ Proof.
   - unfold conn_prepare. cbn [expressible]. unfold bytes in *. rewrite Hks. unfold payload_expressible.
     destruct (4 <=? v); reflexivity.
 Qed.
+
+(* ---- the session-level guard keeps the statement count of a batch inside the [short] ------------------------------- *)
+Lemma conn_batch_stmts_len version typ entries cl serial dts dtsv payload r :
+  conn_execute_batch version typ entries cl serial dts dtsv payload = Some r ->
+  exists ss, r = RBatch typ ss cl serial dts dtsv payload /\ len ss = len entries.
+Proof.
+  unfold conn_execute_batch. destruct (conn_batch_refused version); [discriminate|]. intros H.
+  apply Some_inj in H. subst r. eexists. split; [reflexivity|]. apply len_map.
+Qed.
+
+Lemma session_batch_count_fits_lemma :
+  forall version typ entries cl serial dts dtsv payload r,
+    session_execute_batch version typ entries cl serial dts dtsv payload = Some r ->
+    exists ss, r = RBatch typ ss cl serial dts dtsv payload /\ len ss = len entries /\ short_len ss = true.
+Proof.
+  intros version typ entries cl serial dts dtsv payload r H. unfold session_execute_batch in H.
+  destruct (session_batch_refused (len entries)) eqn:G; [discriminate|].
+  destruct (conn_batch_stmts_len _ _ _ _ _ _ _ _ _ H) as (ss & -> & Hl).
+  exists ss. split; [reflexivity|]. split; [exact Hl|].
+  unfold short_len. rewrite Hl. unfold session_batch_refused, K.BatchSizeMaximum in G. zl.
+Qed.
